@@ -75,6 +75,67 @@ func c15Run(c *Ctx, o *opCase, level, sinkMode int) {
 	c.Descf("default: err=%s; level=%s sink=%s: err=%s log-writes=%d log-bytes=%d", def.Err, harness.LogLevelNames[level], world.SinkNames[sinkMode], cfg.Err, sink.Writes, sink.Bytes)
 }
 
+// c15History: the operation is a decode of a tiny TIFF with zone-offset texts that the process
+// has not seen, after a history of such files (0..2 200 of them, at the default level) that fills
+// whatever the library keeps per offset; then the same comparison as c15Run. Code that only runs
+// when a process-wide cache is full and a level is enabled is reached nowhere else.
+func c15History(c *Ctx) {
+	g := c.L("gen")
+	cfg := c.L("cfg")
+	level := cfg.Intn(len(harness.LogLevels))
+	sinkMode := cfg.Intn(4)
+	files := []int{0, 100, 340, 345, 400, 750}[g.Intn(6)]
+	style := []int{1, 1, 3, 4}[g.Intn(4)]
+	seed := g.U64()
+	tmpl, at := zoneTemplate(g)
+	e := harness.EntryByName([]string{"Decode", "DecodeTiff", "exif2.Parse"}[g.Intn(3)])
+	c.Descf("history of %d files with new zone offsets (style %d) at the default level, then one more under level=%s sink=%s through %s", files, style, harness.LogLevelNames[level], world.SinkNames[sinkMode], e.Name)
+	if c.PlanOnly {
+		c.PlanEntry = e.Name
+		return
+	}
+	harness.LogDefault()
+	harness.Pristine()
+	harness.SkipCanon = true
+	for i := 0; i < files; i++ {
+		d := zoneFile(tmpl, at, style, seed, i)
+		c.Dev.Budget = c.Dev.Seq + tickBudget(len(d))
+		harness.Invoke(e, &harness.Env{}, newReader(c.Dev, d, Fault{}, Delivery{}))
+	}
+	harness.SkipCanon = false
+	run := func(i int) *harness.Result {
+		d := zoneFile(tmpl, at, style, seed, i)
+		c.Dev.Budget = c.Dev.Seq + tickBudget(len(d))
+		return invoke(c, e, &harness.Env{}, newReader(c.Dev, d, Fault{}, Delivery{}))
+	}
+	def := run(files)
+	sink := &world.SimSink{Dev: c.Dev, Mode: sinkMode}
+	harness.LogConfigure(sink, level)
+	cfgd := run(files + 1)
+	harness.LogDefault()
+	// the two files differ only in their zone texts: compare each with the same file decoded on
+	// process-start state under the default configuration
+	harness.Pristine()
+	ref := run(files + 1)
+	harness.Pristine()
+	c.D.Int(int(sink.Writes))
+	c.Inc("entry:" + e.Name)
+	c.Inc("cfg.level:" + harness.LogLevelNames[level])
+	c.Inc(fmt.Sprintf("history:%d-files", files))
+	if harness.ZoneCacheLen() == 0 && files > 0 {
+		c.Inc("probe:history-left-no-zone-cache")
+	}
+	c.NonTrivial = sink.Writes > 0 || files > 0
+	_ = def
+	if cfgd.Panic != nil && ref.Panic == nil {
+		c.Fail("panic", e.Name, cfgd.Panic.Func+"/"+cfgd.Panic.Class, fmt.Sprintf("panics only with logger level=%s sink=%s after a history of %d files: %s", harness.LogLevelNames[level], world.SinkNames[sinkMode], files, cfgd.Panic.Value))
+		return
+	}
+	if site, detail := resultDiff(ref, cfgd); site != "" {
+		c.Fail("mismatch", e.Name, "history:"+site, fmt.Sprintf("default configuration on process-start state vs level=%s sink=%s after a history of %d files: %s", harness.LogLevelNames[level], world.SinkNames[sinkMode], files, detail))
+	}
+}
+
 func init() {
 	p := &Prop{
 		ID:    "C15",
@@ -82,6 +143,9 @@ func init() {
 		Rule: "a run is non-trivial when the configured logger actually received at least one event (the configuration changed what the library executed); " +
 			"distinct = distinct run digests (entry point, device counts, canonical results, number of log writes)",
 		QuickSec: 45, ThoroughSec: 480,
+		// a call that returns under the default configuration and never returns under another one
+		// has had its result changed by the configuration: a confirmed hang is this property's
+		HangKind: "stall",
 		Setup: func(repo, tier string) error {
 			if err := LoadSamples(repo); err != nil {
 				return err
@@ -137,6 +201,16 @@ func init() {
 				}
 				c15Run(c, o, level, sink)
 			},
+		},
+		{
+			Name: "zone-history", Weight: 1,
+			N: func(tier string, seed uint64) uint64 {
+				if tier == "thorough" {
+					return 60000
+				}
+				return 3000
+			},
+			Run: c15History,
 		},
 	}
 	Register(p)
